@@ -72,8 +72,20 @@ func c10Gen(r *RNG, id string) *Case {
 			ref = ref[:24]
 		}
 	}
+	longRow := false
+	if c.Get("jit") == "" && r.Chance(1, 40) {
+		// a row of several kB (hundreds of SNPs): longer than any block or token buffer a writer might use
+		ref = randSeq(r, r.Range(1500, 3000), symACGT, false)
+		n = r.Range(2, 4)
+		longRow = true
+		c.Tag("long-row")
+	}
 	var seqs []string
 	for i := 0; i < n; i++ {
+		if longRow && i == n/2 {
+			seqs = append(seqs, mutateSeq(r, strings.ToUpper(ref), symACGT, 9, 10, false))
+			continue
+		}
 		seqs = append(seqs, tractSeq(r, strings.ToUpper(ref)))
 	}
 	c.Set("ref", ref).Set("names", strings.Join(randNamesCSV(r, n, "", true), ",")).Set("seqs", strings.Join(seqs, ","))
